@@ -37,7 +37,7 @@ theorem parseNode_tail (e : BEnv) (Γ : Ctx) (cfg : ParserConfig) (node : Node) 
   | skip => simp only [parseNode]
   | wrapper _ => simp only [parseNode]
   | primitive pm var ns => simp only [parseNode, h]
-  | standard var dt ns nl d => simp only [parseNode]
+  | standard var dt ns nl d mx => simp only [parseNode, h]
   | wildcard var ats ns => simp only [parseNode, h]
   | element m ats ns d xt xn =>
     simp only [parseNode, h, bindWildText_tail e _ _ _ _ _ tl tl' h]
